@@ -28,6 +28,8 @@ def run(c):
         "event per Apply; the engine tracks its own offset (Skip/Apply) as the repo's TestEngineImpl does",
         "replica mode (fsnotify loop), pid-change mode, compressed chunks (kfs zip), lev_set_persistent_config_value and "
         "levUpgradeToGms records are not modelled (the model answers `unmodelled`; the generator never produces them)",
+        "of hashBuff1/hashBuff2 only the length of hashBuff2 is modelled (it decides whether the first chunk's Rotate lev "
+        "slices out of range); the md5 values themselves are inputs",
         "file names (generateNextBinlogFilename) are not modelled; files are identified by the position in their header; two "
         "files with equal positions are never generated (sort.Slice tie order unspecified)",
         "the writer goroutine is driven deterministically by parking it inside Engine.StartReindex; whether the 500 ms flush "
@@ -69,7 +71,8 @@ META = {
              "checksum error iff the stored value differs - corruption detection reduced to the checksum distinguishing the two "
              "byte strings; (commit_monotone, commit_all_synced_partial) for every schedule of appends and writer-loop "
              "iterations commit offsets never decrease, never run ahead of the append position, and when a commit is issued no "
-             "written byte is without an fsync. The model is tied to the code by replaying generated histories (sessions, "
+             "written byte is without an fsync; (putLev_no_panic) a writer restarted inside the first chunk never takes the "
+             "out-of-range hashBuff2 slice (fixed code; decide witness for the old code). The model is tied to the code by replaying generated histories (sessions, "
              "rotations, crc records, resumes, truncations, bit flips) on the real package and on the compiled model and "
              "diffing every observation; the direct oracle checks replay/resume equality, commit <= fsynced bytes (gofs dirty "
              "pages), truncation and bit-flip outcomes on the real code."),
@@ -80,6 +83,9 @@ META = {
              "the rotatePos invariant and is oracle-only; rotation, multi-file scan, seek and resume across chunks are covered "
              "by correspondence and oracle only. Known finding truncated-file-header: a last chunk cut inside its 36-byte "
              "ROTATE_FROM header (crash inside rotate()) makes the whole binlog unreadable (scan error; index panic for 1-3 "
-             "bytes); reproduced by the model (decide witnesses in Props/C18.lean)."),
+             "bytes); reproduced by the model (decide witnesses in Props/C18.lean). Defect found and fixed "
+             "(fixes/C18-restart-first-chunk-hash.diff, sig=append-panic): Append panicked (and kept panicking after every "
+             "restart) when the writer was restarted inside a first chunk longer than 32K; the model describes the fixed code, "
+             "so on a tree without the fix the check reports VIOLATION with the replay."),
     "design_ref": "DESIGN.md §6 C18",
 }
